@@ -502,6 +502,8 @@ func (e *Engine) zero(s *State, t types.Type) Val {
 		return FuncV{}
 	case *types.Map:
 		return MapV{Ref: refT(0), K: u.Key(), V: u.Elem()}
+	case *types.Chan:
+		return refT(0)
 	}
 	panic(fmt.Sprintf("zero: unsupported type %s", t))
 }
@@ -711,6 +713,9 @@ func (e *Engine) loadHeapVal(s *State, nm string, ref Term, t types.Type) Val {
 	case *types.Map:
 		e.heapArr(s, nm+"$map", refArrSort("Ref"))
 		return MapV{Ref: e.wtRef(s, e.read1(s, nm+"$map", ref, "Ref")), K: u.Key(), V: u.Elem()}
+	case *types.Chan: // channels are outside the subset: a channel value is only an identity that can be stored and moved
+		e.heapArr(s, nm+"$chan", refArrSort("Ref"))
+		return e.read1(s, nm+"$chan", ref, "Ref")
 	case *types.Basic:
 		so, _ := sortOf(t)
 		if nm == "C" {
@@ -767,6 +772,9 @@ func (e *Engine) storeHeapVal(s *State, nm string, ref Term, t types.Type, v Val
 	case *types.Map:
 		k := nm + "$map"
 		e.hset(s, k, e.name(s, sto(e.heapArr(s, k, refArrSort("Ref")), ref, v.(MapV).Ref)), HWrite{Ref: ref, Val: v.(MapV).Ref})
+	case *types.Chan:
+		k := nm + "$chan"
+		e.hset(s, k, e.name(s, sto(e.heapArr(s, k, refArrSort("Ref")), ref, v.(Term))), HWrite{Ref: ref, Val: v.(Term)})
 	case *types.Basic:
 		so, _ := sortOf(t)
 		if nm == "C" {
